@@ -8,9 +8,9 @@ Import ListNotations.
 
 (* 1. the generic exact algorithm: for ALL sizes n, block sizes B and offsets k, when it returns it returns the k-th
       diagonal of the represented matrix, of length n - |k| ... *)
-Theorem C08_exact_diag_correct : forall (R : Type) (RR : Ring R) (CR : CRing R) (e : op (R:=R)) B n k d,
+Theorem C08_exact_diag_correct : forall (R : Type) (RR : Ring R) (CR : CRing R) fx (e : op (R:=R)) B n k d,
   wf e = true -> shape e = (n, n) -> (1 <= B)%nat -> (1 <= n)%nat ->
-  exact_diag B n (fun _ X => matmat e X) k = Some d ->
+  exact_diag fx B n (fun _ X => matmat e X) k = Some d ->
   d = true_diag n n (den e) k /\ length d = (n - Z.to_nat (Z.abs k))%nat.
 Proof. intros R RR CR. exact exact_diag_correct. Qed.
 Print Assumptions C08_exact_diag_correct.
@@ -18,36 +18,43 @@ Print Assumptions C08_exact_diag_correct.
       or 0 < k < B - r), and returns the true diagonal on all others *)
 Theorem C08_exact_diag_raises_iff_ragged : forall (R : Type) (RR : Ring R) (CR : CRing R) (e : op (R:=R)) B n k,
   wf e = true -> shape e = (n, n) -> (1 <= B)%nat -> (1 <= n)%nat ->
-  (exact_diag B n (fun _ X => matmat e X) k = None <-> ragged B n k = true).
+  (exact_diag false B n (fun _ X => matmat e X) k = None <-> ragged B n k = true).
 Proof. intros R RR CR. exact exact_diag_none_iff. Qed.
 Print Assumptions C08_exact_diag_raises_iff_ragged.
 Theorem C08_exact_diag_total : forall (R : Type) (RR : Ring R) (CR : CRing R) (e : op (R:=R)) B n k,
   wf e = true -> shape e = (n, n) -> (1 <= B)%nat -> (1 <= n)%nat ->
-  ragged B n k = false -> exact_diag B n (fun _ X => matmat e X) k = Some (true_diag n n (den e) k).
+  ragged B n k = false -> exact_diag false B n (fun _ X => matmat e X) k = Some (true_diag n n (den e) k).
 Proof. intros R RR CR. exact exact_diag_total. Qed.
 Print Assumptions C08_exact_diag_total.
+(* the repaired code (shifted chunk cut to the width of the chunk) returns the true diagonal for every n, B, k *)
+Theorem C08_exact_diag_fixed_total : forall (R : Type) (RR : Ring R) (CR : CRing R) (e : op (R:=R)) B n k,
+  wf e = true -> shape e = (n, n) -> (1 <= B)%nat -> (1 <= n)%nat ->
+  exact_diag true B n (fun _ X => matmat e X) k = Some (true_diag n n (den e) k).
+Proof. intros R RR CR. exact exact_diag_fixed_total. Qed.
+Print Assumptions C08_exact_diag_fixed_total.
 Theorem C08_never_ragged : forall B n k, (n <= B)%nat \/ (n mod B = 0)%nat \/ k = 0%Z -> ragged B n k = false.
 Proof. exact ragged_false_cases. Qed.
 Print Assumptions C08_never_ragged.
 (* the same over an arbitrary product oracle that returns columns of M on identity columns (dense matrix, index level) *)
-Theorem C08_exact_diag_cases : forall (R : Type) (RR : Ring R) B n k (M : fm (R:=R)) mul,
+Theorem C08_exact_diag_cases : forall (R : Type) (RR : Ring R) fx B n k (M : fm (R:=R)) mul,
   col_oracle n M mul -> (1 <= B)%nat -> (1 <= n)%nat ->
-  exact_diag B n mul k = if ragged B n k then None else Some (true_diag n n M k).
+  exact_diag fx B n mul k = if (negb fx && ragged B n k)%bool then None else Some (true_diag n n M k).
 Proof. intros R RR. exact exact_diag_cases. Qed.
 Print Assumptions C08_exact_diag_cases.
 
 (* 2. diag(A, k, alg) as dispatched by kind (Dense, Identity, Diagonal, ScalarMul, Sum, BlockDiag with multiplicities,
       Kronecker and KronSum with any number of factors, generic operators through exact_diag; Exact or Auto), any
       nesting: whenever a value is returned it is the k-th diagonal of the represented matrix - a rule agrees or
-      refuses.  dwf: square blocks/factors, well-formed generic parts. *)
-Theorem C08_diag_rule_agrees : forall (R : Type) (RR : Ring R) (CR : CRing R) B al, (1 <= B)%nat ->
-  forall (e : op (R:=R)) k d, dwf e = true -> diag_rule B al e k = inr d ->
+      refuses.  dwf: well-formed generic parts, square blocks/factors - the latter not needed for the repaired rules
+      (df: flags of the pinned / repaired tree), which refuse non-square blocks/factors themselves. *)
+Theorem C08_diag_rule_agrees : forall (R : Type) (RR : Ring R) (CR : CRing R) df B al, (1 <= B)%nat ->
+  forall (e : op (R:=R)) k d, dwf df e = true -> diag_rule df B al e k = inr d ->
   d = true_diag (fst (shape e)) (snd (shape e)) (den e) k.
 Proof. intros R RR CR. exact diag_rule_agrees. Qed.
 Print Assumptions C08_diag_rule_agrees.
 (* 3. trace: generic (sum of the main diagonal) and Kronecker (product of the factors' traces) *)
-Theorem C08_trace_correct : forall (R : Type) (RR : Ring R) (CR : CRing R) B al, (1 <= B)%nat ->
-  forall (e : op (R:=R)) t, tdwf e = true -> trace_rule B al e = inr t -> t = true_trace (fst (shape e)) (den e).
+Theorem C08_trace_correct : forall (R : Type) (RR : Ring R) (CR : CRing R) df B al, (1 <= B)%nat ->
+  forall (e : op (R:=R)) t, tdwf df e = true -> trace_rule df B al e = inr t -> t = true_trace (fst (shape e)) (den e).
 Proof. intros R RR CR. exact trace_correct. Qed.
 Print Assumptions C08_trace_correct.
 
@@ -58,22 +65,23 @@ Print Assumptions C08_auto_exact_below.
 
 (* 5. what the faithful model of the pinned tree violates *)
 Theorem C08_exact_diag_ragged_chunk_refuted : forall (e : zop), wf e = true -> shape e = (101, 101)%nat ->
-  exact_diag 100 101 (fun _ X => matmat e X) 1 = None /\ exact_diag 100 101 (fun _ X => matmat e X) (-2) = Some (true_diag 101 101 (den e) (-2)).
+  exact_diag false 100 101 (fun _ X => matmat e X) 1 = None /\ exact_diag false 100 101 (fun _ X => matmat e X) (-2) = Some (true_diag 101 101 (den e) (-2))
+  /\ exact_diag true 100 101 (fun _ X => matmat e X) 1 = Some (true_diag 101 101 (den e) 1).
 Proof. exact exact_diag_ragged_chunk_refuted. Qed.
 Print Assumptions C08_exact_diag_ragged_chunk_refuted.
-Theorem C08_ragged_on_diag_rule : exists (e : zop), dwf e = true /\ shape e = (101, 101)%nat /\ diag_rule 100 AExact e 1 = inl DValue.
+Theorem C08_ragged_on_diag_rule : exists (e : zop), dwf dpinned e = true /\ shape e = (101, 101)%nat /\ diag_rule dpinned 100 AExact e 1 = inl DValue.
 Proof. exact exact_diag_ragged_on_diag_rule. Qed.
 Print Assumptions C08_ragged_on_diag_rule.
-Theorem C08_kron_diag_nonsquare_refuted : exists (e : zop) d, wf e = true /\ shape e = (6, 6)%nat /\ diag_rule 100 AExact e 0 = inr d
-  /\ length d = 4%nat /\ length (true_diag 6 6 (den e) 0) = 6%nat.
+Theorem C08_kron_diag_nonsquare_refuted : exists (e : zop) d, wf e = true /\ shape e = (6, 6)%nat /\ diag_rule dpinned 100 AExact e 0 = inr d
+  /\ length d = 4%nat /\ length (true_diag 6 6 (den e) 0) = 6%nat /\ diag_rule drepaired 100 AExact e 0 = inl DAssert.
 Proof. exact kron_diag_nonsquare_refuted. Qed.
 Print Assumptions C08_kron_diag_nonsquare_refuted.
-Theorem C08_blockdiag_diag_nonsquare_refuted : exists (e : zop) d, wf e = true /\ shape e = (5, 5)%nat /\ diag_rule 100 AExact e 0 = inr d
-  /\ length d = 4%nat /\ length (true_diag 5 5 (den e) 0) = 5%nat.
+Theorem C08_blockdiag_diag_nonsquare_refuted : exists (e : zop) d, wf e = true /\ shape e = (5, 5)%nat /\ diag_rule dpinned 100 AExact e 0 = inr d
+  /\ length d = 4%nat /\ length (true_diag 5 5 (den e) 0) = 5%nat /\ diag_rule drepaired 100 AExact e 0 = inl DAssert.
 Proof. exact blockdiag_diag_nonsquare_refuted. Qed.
 Print Assumptions C08_blockdiag_diag_nonsquare_refuted.
 
 (* the hypotheses are satisfiable on a nested tree with every structural kind and a generic part *)
-Example C08_example : dwf Ex = true /\ shape Ex = (4, 4)%nat.
+Example C08_example : dwf dpinned Ex = true /\ dwf drepaired Ex = true /\ shape Ex = (4, 4)%nat.
 Proof. exact ex_dwf. Qed.
 Print Assumptions C08_example.
